@@ -219,12 +219,20 @@ class Setup:
         for o, p in zip(objs, snap):
             if kind_of(o) == "gauss":
                 v = int(o.scope[0])
-                tab = C.coq_list([f"({C.zlit(c)}, {C.qlit(G.gauss_pdf(x, p[0], p[1]))})" for c, x in enumerate(self.points[v])])
+                tab = C.coq_list([f"({C.zlit(c)}, {C.qlit(round_bits(G.gauss_pdf(x, p[0], p[1])))})" for c, x in enumerate(self.points[v])])
                 items.append(f"(({C.qlit(p[0])}, {C.qlit(p[1])}, {v}%nat), {tab})")
         return C.coq_list(items)
 
 
 # ------------------------------------------------------------------ direct oracle, part 2
+def round_bits(x, bits=20):
+    """x rounded to `bits` significant bits (keeps the exact rationals of the model run small)."""
+    if x == 0.0 or not math.isfinite(x):
+        return x
+    m, e = math.frexp(x)
+    return math.ldexp(round(m * 2 ** bits) / 2 ** bits, e)
+
+
 def leaf_lik(o, p, row):
     """independent likelihood of a leaf with parameter vector p on one complete data row."""
     k = kind_of(o)
@@ -444,7 +452,7 @@ def main(tier, seed, replay=None):
         "tolerances: relative 1e-3 + 1e-7 absolute per parameter per iteration (float32 implementation vs exact rationals); "
         "chained model runs 5e-3",
         "complete data only (EM on rows with NaN is outside the model); strictly positive leaf parameters (zero-probability rows excluded)"]
-    ncirc = 36 if tier == "quick" else 240
+    ncirc = 150 if tier == "quick" else 900
     files = []; metas = []
     body = list(HEADER); names = []; cur = []
     dist = dict(circuits=0, iterations=0, random_init=0, given_init=0, leaf_kinds={}, nodes=[], batch_sizes={}, etas=[],
@@ -501,20 +509,15 @@ def main(tier, seed, replay=None):
                 rep.violation(dict(info, kind="invalid-parameters", after_iteration=k, nodes=bad, parameters=sn), True); broke = True; break
         if broke:
             continue
-        # --- direct oracle on small circuits (independent responsibilities by enumeration)
+        # --- direct oracle on small circuits (independent responsibilities by enumeration); a
+        # disagreement is reported after the model comparison (so that both verdicts are in the replay)
         orc = {}
         for k in range(n_iter):
             rows = [S.data[j] for j in batches[k]]
             exp, bad = oracle_compare(objs, snaps[k], snaps[k + 1], rows, eta)
             if exp is not None:
                 dist["oracle_checked_iterations"] += 1
-                orc[k] = bad
-                if bad:
-                    rep.violation(dict(info, kind="update-differs-from-enumerated-responsibilities", iteration=k + 1,
-                                       batch=[int(j) for j in batches[k]], before=snaps[k], after=snaps[k + 1], nodes=bad), True)
-                    broke = True; break
-        if broke:
-            continue
+                orc[k + 1] = bad
         # --- model cases
         base = f"c{ci}"
         if rinit:
@@ -526,17 +529,19 @@ def main(tier, seed, replay=None):
             body.append(f"Definition {base}_i := run_icase (Build_icase\n  {etable_coq(objs, pre)}\n  {ds}\n  {exp_coq(snaps[0])}).")
             names.append(f"{base}_i"); cur.append(dict(info=info, what="init", objs=objs, before=pre, after=snaps[0], k=0))
         for k in range(n_iter):
-            exact = exactly_normalised(objs, snaps[k])
+            exact = exactly_normalised(objs, snaps[k]) and not S.points
             body.append(f"Definition {base}_{k} := run_ecase (Build_ecase\n  {etable_coq(objs, snaps[k])}\n  {S.xs_coq()}\n  {S.gd_coq(objs, snaps[k])}\n"
-                        f"  {C.qlit(eta)} {S.rows_coq(batches[k])}\n  {exp_coq(snaps[k + 1])}\n  {'true' if exact else 'false'} {S.doms_coq()} {S.cont_coq()}).")
+                        f"  {C.qlit(eta)} {S.rows_coq(batches[k])}\n  {exp_coq(snaps[k + 1])}\n  {'true' if S.points else 'false'} {'true' if exact else 'false'} {S.doms_coq()} {S.cont_coq()}).")
             names.append(f"{base}_{k}")
             cur.append(dict(info=info, what="iteration", objs=objs, before=snaps[k], after=snaps[k + 1], k=k + 1,
-                            batch=[int(j) for j in batches[k]], rows=[S.data[j] for j in batches[k]], eta=eta, exact=exact))
+                            batch=[int(j) for j in batches[k]], rows=[S.data[j] for j in batches[k]], eta=eta, exact=exact,
+                            oracle_bad=orc.get(k + 1)))
             dist["batch_sizes"][len(batches[k])] = dist["batch_sizes"].get(len(batches[k]), 0) + 1
-        if not rinit and not S.points and n_iter <= 3 and len(objs) <= 14 and exactly_normalised(objs, snaps[0]):
-            bs = C.coq_list([S.rows_coq(b) for b in batches])
-            body.append(f"Definition {base}_ch := run_ccase (Build_ccase\n  {etable_coq(objs, snaps[0])}\n  {C.qlit(eta)} {bs}\n  {exp_coq(snaps[-1])} {S.doms_coq()}).")
-            names.append(f"{base}_ch"); cur.append(dict(info=info, what="chain", objs=objs, before=snaps[0], after=snaps[-1], k=n_iter))
+        if not rinit and not S.points and len(objs) <= 10 and exactly_normalised(objs, snaps[0]):
+            # the exact rationals grow quickly: chain the first two iterations only
+            bs = C.coq_list([S.rows_coq(b) for b in batches[:2]])
+            body.append(f"Definition {base}_ch := run_ccase (Build_ccase\n  {etable_coq(objs, snaps[0])}\n  {C.qlit(eta)} {bs}\n  {exp_coq(snaps[2])} {S.doms_coq()}).")
+            names.append(f"{base}_ch"); cur.append(dict(info=info, what="chain", objs=objs, before=snaps[0], after=snaps[2], k=2))
             dist["chained"] += 1
         if len(names) >= 6:
             flush()
@@ -571,6 +576,11 @@ def main(tier, seed, replay=None):
                     exp, bad = oracle_compare(cs["objs"], cs["before"], cs["after"], cs["rows"], cs["eta"])
                     v["oracle"] = dict(available=exp is not None, expected=exp, nodes_differing=bad)
                 rep.violation(v, True)
+            elif cs.get("oracle_bad") and nviol < 5:
+                nviol += 1
+                rep.violation(dict(cs["info"], kind="update-differs-from-enumerated-responsibilities", iteration=cs["k"], batch=cs.get("batch"),
+                                   note="the model agrees with the implementation here; the independent enumeration does not",
+                                   before=cs["before"], implementation_after=cs["after"], nodes=cs["oracle_bad"]), True)
     for m in metas[:1] + metas[-1:]:
         for cs in m[:1]:
             rep.sample(dict(stage=cs["what"], iteration=cs["k"], circuit=cs["info"]["circuit"], eta=cs["info"]["eta"],
